@@ -76,9 +76,19 @@ Definition event_eqb (a b : event) : bool :=
 (* synctest: the fake clock advances, and synctest.Wait() returns, only when every goroutine of the bubble is
    durably blocked: receive loop in ReceiveMessage (or returned), sweeper in its select with no tick due and
    stopCh open (or returned), every reply loop in ReadFrom on an open socket (or returned); or a thread is
-   inside a slow logger.Close (the harness can make the fake logger sleep), i.e. between ACloseLog and ACloseDel *)
-Definition quiescent (s : state) : bool :=
-  (match rl s with RWait | RDone => true | RClose (_, Some (_, true)) _ => true | _ => false end) &&
+   inside a slow logger.Close (the harness can make the fake logger sleep), i.e. between ACloseLog and ACloseDel;
+   or (slow_dial: the history makes the fake Hook / UDP() sleep on the fake clock) the receive loop is inside
+   DialFunc, i.e. at RInit on an entry whose closed flag is clear.  initConn holds connLock from the closed check
+   to the socket install, so the whole of it is the one action ADial / AHookErr taken when the call returns: time
+   passes and sweeps run with the receive loop at RInit, and no CloseWithErr on that entry can come in between
+   (a log in which the entry is reported closed and then dialed has no run). *)
+Definition quiescent (slow_dial : bool) (s : state) : bool :=
+  (match rl s with
+   | RWait | RDone => true
+   | RClose (_, Some (_, true)) _ => true
+   | RInit e _ => slow_dial && match nth_error (heap s) e with Some en => negb (e_closed en) | None => false end
+   | _ => false
+   end) &&
   (match sw s with
    | SWait => negb (next_tick s <=? now s) && negb (stopped s)
    | SDone => true
@@ -118,6 +128,7 @@ Definition norm (s : state) : state :=
 Section Acc.
 Variable timeout : N.
 Variable allow_drop : bool.   (* false when the harness's policy allows every destination *)
+Variable slow_dial : bool.    (* true when the history contains slow hooks / dials *)
 Variable cfuel : nat.         (* bound on the number of tau rounds between two visible events *)
 
 Definition idxs (s : state) : list nat := seq 0 (length (heap s)).
@@ -180,12 +191,12 @@ Fixpoint sim (St : list state) (tr : list item) (i : N) : list state * option N 
   match tr with
   | [] => (St, None)
   | Quiet :: t =>
-      match filter quiescent St with
+      match filter (quiescent slow_dial) St with
       | [] => ([], Some i)
       | S1 => sim S1 t (i + 1)
       end
   | Ev ev :: t =>
-      let S0 := match ev with EAdvance _ => filter quiescent St | _ => St end in
+      let S0 := match ev with EAdvance _ => filter (quiescent slow_dial) St | _ => St end in
       let S1 := close_set (add_new [] [] (flat_map (vis_succ ev) S0)) in
       match S1 with
       | [] => ([], Some i)
@@ -228,11 +239,11 @@ Fixpoint monitor (owners : list (N * N)) (closed : list N) (tr : list event) : b
 Definition events_of (tr : list item) : list event :=
   flat_map (fun i => match i with Ev e => [e] | Quiet => [] end) tr.
 
-Inductive case := CHist (timeout : N) (count : N) (tr : list item).
+Inductive case := CHist (timeout : N) (count : N) (slow_dial : bool) (tr : list item).
 
 Definition check (c : case) : bool :=
   match c with
-  | CHist timeout count tr => monitor [] [] (events_of tr) && accepts timeout false 60 tr count
+  | CHist timeout count slow tr => monitor [] [] (events_of tr) && accepts timeout false slow 60 tr count
   end.
 
 Definition mismatches (l : list case) : list nat := mism_from check 0 l.
